@@ -635,6 +635,9 @@ func (x Expr) Get(data any) (results []any) {
 							results = append(results, tv[i])
 						}
 					} else {
+						if end <= start {
+							continue
+						}
 						end = start + (end-start-1)/step*step
 						for i := end; start <= i; i -= step {
 							v = tv[i]
@@ -662,6 +665,9 @@ func (x Expr) Get(data any) (results []any) {
 							results = append(results, tv[i])
 						}
 					} else {
+						if start <= end {
+							continue
+						}
 						end = start - (start-end-1)/step*step
 						for i := end; i <= start; i -= step {
 							v = tv[i]
@@ -704,6 +710,9 @@ func (x Expr) Get(data any) (results []any) {
 							results = append(results, tv.ValueAtIndex(i))
 						}
 					} else {
+						if end <= start {
+							continue
+						}
 						end = start + (end-start-1)/step*step
 						for i := end; start <= i; i -= step {
 							v = tv.ValueAtIndex(i)
@@ -731,6 +740,9 @@ func (x Expr) Get(data any) (results []any) {
 							results = append(results, tv.ValueAtIndex(i))
 						}
 					} else {
+						if start <= end {
+							continue
+						}
 						end = start - (start-end-1)/step*step
 						for i := end; i <= start; i -= step {
 							v = tv.ValueAtIndex(i)
@@ -772,6 +784,9 @@ func (x Expr) Get(data any) (results []any) {
 							results = append(results, tv[i])
 						}
 					} else {
+						if end <= start {
+							continue
+						}
 						end = start + (end-start-1)/step*step
 						for i := end; start <= i; i -= step {
 							v = tv[i]
@@ -790,6 +805,9 @@ func (x Expr) Get(data any) (results []any) {
 							results = append(results, tv[i])
 						}
 					} else {
+						if start <= end {
+							continue
+						}
 						end = start - (start-end-1)/step*step
 						for i := end; i <= start; i -= step {
 							v = tv[i]
@@ -1468,6 +1486,9 @@ func (x Expr) FirstFound(data any) (any, bool) {
 					if int(fi) == len(x)-1 && start < end { // last one
 						return tv[start], true
 					}
+					if end <= start {
+						continue
+					}
 					end = start + (end-start-1)/step*step
 					for i := end; start <= i; i -= step {
 						v = tv[i]
@@ -1491,6 +1512,9 @@ func (x Expr) FirstFound(data any) (any, bool) {
 					}
 					if int(fi) == len(x)-1 && end < start { // last one
 						return tv[start], true
+					}
+					if start <= end {
+						continue
 					}
 					end = start - (start-end-1)/step*step
 					for i := end; i <= start; i -= step {
@@ -1531,6 +1555,9 @@ func (x Expr) FirstFound(data any) (any, bool) {
 					if int(fi) == len(x)-1 && start < end { // last one
 						return tv.ValueAtIndex(start), true
 					}
+					if end <= start {
+						continue
+					}
 					end = start + (end-start-1)/step*step
 					for i := end; start <= i; i -= step {
 						v = tv.ValueAtIndex(i)
@@ -1554,6 +1581,9 @@ func (x Expr) FirstFound(data any) (any, bool) {
 					}
 					if int(fi) == len(x)-1 && end < start { // last one
 						return tv.ValueAtIndex(start), true
+					}
+					if start <= end {
+						continue
 					}
 					end = start - (start-end-1)/step*step
 					for i := end; i <= start; i -= step {
@@ -1593,6 +1623,9 @@ func (x Expr) FirstFound(data any) (any, bool) {
 					if int(fi) == len(x)-1 && start < end { // last one
 						return tv[start], true
 					}
+					if end <= start {
+						continue
+					}
 					end = start + (end-start-1)/step*step
 					for i := end; start <= i; i -= step {
 						v = tv[i]
@@ -1607,6 +1640,9 @@ func (x Expr) FirstFound(data any) (any, bool) {
 					}
 					if int(fi) == len(x)-1 && end < start { // last one
 						return tv[start], true
+					}
+					if start <= end {
+						continue
 					}
 					end = start - (start-end-1)/step*step
 					for i := end; i <= start; i -= step {
